@@ -2,7 +2,14 @@
    rbx_xml/src/deserializer.rs ([xml_decode] = decode_internal) above the event abstraction.
    Function by function; the Rust name is given beside each definition.  The recursion of
    serialize_instance / deserialize_instance per nesting level is recursion on explicit fuel
-   (number of instances + 1, resp. 2 * number of events + 4).  Definitions only. *)
+   (number of instances + 1, resp. 2 * number of events + 4).
+   The model follows /repo's working tree.  The per-property steps ([serialize_property], [deserialize_property]) are
+   parameters of the recursions above them ([.._with]), so that the code BEFORE a repair stays available under `_pinned`
+   names for the refutation witnesses of Proofs/XmlFileFacts.v:
+     62703803  serializer: a migrated legacy element is skipped when the instance carries the new property itself
+     9d6f480a  deserializer: `Name` is read regardless of the descriptor lookup when the lookup finds no descriptor
+     8e3b6855  deserializer: the rewrites queued by an ignored (IgnoreUnknown) property are dropped
+   Definitions only. *)
 From RbxVerif Require Export Base Bytes Value Db CodecDom XmlEvents XmlValues.
 Open Scope string_scope.
 Open Scope list_scope.
@@ -68,8 +75,63 @@ Definition write_value_xml (e : xenv) (st : estate) (pname : bytes) (v : value) 
       end
   end.
 
-(* the body of the `for (property_name, value) in property_buffer.drain(..)` loop *)
-Definition serialize_property (e : xenv) (beh : ebehavior) (class : bytes) (st : estate) (pname : bytes) (v : value)
+(* `has_explicit_new_value` (62703803): some OTHER key of instance.properties has the canonical descriptor the migration
+   target has.  `new_canonical` = [newc].  The crate iterates the keys in hash order and stops at the first hit; the
+   model goes through them in the order given (sorted): the two can differ only in WHICH of a hit and a panicking lookup
+   is met first, and the lookups do not panic on the bundled database (Proofs/DbFacts.v). *)
+Fixpoint has_other_key_for (e : xenv) (class pname : bytes) (newc : string) (keys : list bytes) : res bool :=
+  match keys with
+  | [] => Ok false
+  | k :: r =>
+      if bytes_eqb k pname then has_other_key_for e class pname newc r
+      else d <- find_desc_xml (xe_db e) (S_ class) (S_ k) ;;
+           match d with
+           | Some (canon, _) => if String.eqb (pd_name canon) newc then Ok true else has_other_key_for e class pname newc r
+           | None => has_other_key_for e class pname newc r
+           end
+  end.
+Definition has_explicit_new_value (e : xenv) (class pname : bytes) (to : string) (keys : list bytes) : res bool :=
+  d <- find_desc_xml (xe_db e) (S_ class) to ;;
+  match d with
+  | Some (canon, _) => has_other_key_for e class pname (pd_name canon) keys
+  | None => Ok false
+  end.
+
+(* the body of the `for (property_name, value) in property_buffer.drain(..)` loop; [keys] = instance.properties.keys() *)
+Definition serialize_property (e : xenv) (beh : ebehavior) (class : bytes) (keys : list bytes) (st : estate) (pname : bytes) (v : value)
+  : res (list wevent * estate) :=
+  desc <- match beh with
+          | ENoReflection => Ok None
+          | _ => find_desc_xml (xe_db e) (S_ class) (S_ pname)
+          end ;;
+  match desc with
+  | Some (_, ser) =>
+      let data_type := dtype_vt (pd_type ser) in
+      conv <- match try_convert (xe_o e) v data_type with
+              | Err c => if c =? DE_CONVERT then Err EE_CONVERT else Err c
+              | r => r
+              end ;;
+      match pd_kind ser with
+      | KCanon (PMigrate to op) =>
+          explicit <- has_explicit_new_value e class pname to keys ;;
+          if explicit then Ok ([], st)                                   (* `continue`: the explicit new value wins *)
+          else
+          match migrate (xe_font e) (xe_brick e) op conv with
+          | Some nv => write_value_xml e st (bytes_of_string to) nv
+          | None => write_value_xml e st (bytes_of_string (pd_name ser)) conv      (* the migration failed: old name, old value *)
+          end
+      | _ => write_value_xml e st (bytes_of_string (pd_name ser)) conv
+      end
+  | None =>
+      match beh with
+      | EIgnoreUnknown => Ok ([], st)
+      | EWriteUnknown | ENoReflection => write_value_xml e st pname v
+      | EErrorOnUnknown => Err EE_UNKNOWN
+      end
+  end.
+
+(* the same loop body before 62703803: the migrated legacy element is always written *)
+Definition serialize_property_pinned (e : xenv) (beh : ebehavior) (class : bytes) (keys : list bytes) (st : estate) (pname : bytes) (v : value)
   : res (list wevent * estate) :=
   desc <- match beh with
           | ENoReflection => Ok None
@@ -86,7 +148,7 @@ Definition serialize_property (e : xenv) (beh : ebehavior) (class : bytes) (st :
       | KCanon (PMigrate to op) =>
           match migrate (xe_font e) (xe_brick e) op conv with
           | Some nv => write_value_xml e st (bytes_of_string to) nv
-          | None => write_value_xml e st (bytes_of_string (pd_name ser)) conv      (* the migration failed: old name, old value *)
+          | None => write_value_xml e st (bytes_of_string (pd_name ser)) conv
           end
       | _ => write_value_xml e st (bytes_of_string (pd_name ser)) conv
       end
@@ -98,18 +160,20 @@ Definition serialize_property (e : xenv) (beh : ebehavior) (class : bytes) (st :
       end
   end.
 
-Fixpoint serialize_properties (e : xenv) (beh : ebehavior) (class : bytes) (st : estate) (ps : list (bytes * value))
-  : res (list wevent * estate) :=
+Definition sprop_t := xenv -> ebehavior -> bytes -> list bytes -> estate -> bytes -> value -> res (list wevent * estate).
+
+Fixpoint serialize_properties_with (sprop : sprop_t) (e : xenv) (beh : ebehavior) (class : bytes) (keys : list bytes) (st : estate)
+  (ps : list (bytes * value)) : res (list wevent * estate) :=
   match ps with
   | [] => Ok ([], st)
   | (k, v) :: r =>
-      '(ev1, st1) <- serialize_property e beh class st k v ;;
-      '(ev2, st2) <- serialize_properties e beh class st1 r ;;
+      '(ev1, st1) <- sprop e beh class keys st k v ;;
+      '(ev2, st2) <- serialize_properties_with sprop e beh class keys st1 r ;;
       Ok (ev1 ++ ev2, st2)
   end.
 
 (* serialize_instance *)
-Fixpoint serialize_instance (fuel : nat) (e : xenv) (beh : ebehavior) (d : cdom) (st : estate) (id : N)
+Fixpoint serialize_instance_with (sprop : sprop_t) (fuel : nat) (e : xenv) (beh : ebehavior) (d : cdom) (st : estate) (id : N)
   : res (list wevent * estate) :=
   match fuel with
   | O => OutOfFuel
@@ -119,12 +183,13 @@ Fixpoint serialize_instance (fuel : nat) (e : xenv) (beh : ebehavior) (d : cdom)
       | Some i =>
           let (mapped, st0) := map_id st id in
           '(nev, st1) <- write_value_xml e st0 (B "Name") (VString (i_name i)) ;;
-          '(pev, st2) <- serialize_properties e beh (i_class i) st1 (bsort (i_props i)) ;;
+          let sorted := bsort (i_props i) in
+          '(pev, st2) <- serialize_properties_with sprop e beh (i_class i) (List.map fst sorted) st1 sorted ;;
           '(cev, st3) <- (fix kids (cs : list N) (s : estate) : res (list wevent * estate) :=
                             match cs with
                             | [] => Ok ([], s)
                             | c :: r =>
-                                '(e1, s1) <- serialize_instance f e beh d s c ;;
+                                '(e1, s1) <- serialize_instance_with sprop f e beh d s c ;;
                                 '(e2, s2) <- kids r s1 ;;
                                 Ok (e1 ++ e2, s2)
                             end) (children_of d id) st2 ;;
@@ -145,16 +210,21 @@ Definition serialize_shared_strings (st : estate) : list wevent :=
   end.
 
 (* encode_internal *)
-Definition xml_encode (e : xenv) (beh : ebehavior) (d : cdom) (roots : list N) : res (list wevent) :=
+Definition xml_encode_with (sprop : sprop_t) (e : xenv) (beh : ebehavior) (d : cdom) (roots : list N) : res (list wevent) :=
   '(body, st) <- (fix go (rs : list N) (s : estate) : res (list wevent * estate) :=
                     match rs with
                     | [] => Ok ([], s)
                     | r :: rest =>
-                        '(e1, s1) <- serialize_instance (S (length d)) e beh d s r ;;
+                        '(e1, s1) <- serialize_instance_with sprop (S (length d)) e beh d s r ;;
                         '(e2, s2) <- go rest s1 ;;
                         Ok (e1 ++ e2, s2)
                     end) roots es0 ;;
   Ok (WStart (B "roblox") [(B "version", B "4")] :: body ++ serialize_shared_strings st ++ [WEnd]).
+
+Definition serialize_properties := serialize_properties_with serialize_property.
+Definition serialize_instance := serialize_instance_with serialize_property.
+Definition xml_encode := xml_encode_with serialize_property.
+Definition xml_encode_pinned := xml_encode_with serialize_property_pinned.       (* before 62703803 *)
 
 (* =============================================================================== deserializer.rs *)
 Inductive dbehavior := DIgnoreUnknown | DReadUnknown | DErrorOnUnknown | DNoReflection.
@@ -196,9 +266,29 @@ Definition read_prop_value (e : xenv) (st : dstate) (ty : bytes) (inst_id : N) (
   | RUnknownType => xret (None, st)
   end.
 
+(* the rewrites queued by one read are dropped again (Vec::truncate to the lengths taken before the read) *)
+Definition drop_queued (before after : dstate) : dstate :=
+  mkDS (ds_nodes after) (ds_next after) (ds_refs after) (firstn (length (ds_rewrites before)) (ds_rewrites after))
+       (ds_shared after) (firstn (length (ds_srewrites before)) (ds_srewrites after)).
+
 (* one iteration of the loop of deserialize_properties after the peek found a start element *)
 Definition deserialize_property (e : xenv) (beh : dbehavior) (class : bytes) (inst_id : N) (ty pname : bytes)
   (st : dstate) (props : list (bytes * value)) : xrd (dstate * list (bytes * value)) :=
+  (* `name_of_undescribed_class` (9d6f480a): xml_property_name == "Name" && use_reflection() && the lookup is None *)
+  undescribed <~ xlift (if bytes_eqb pname (B "Name") then
+                          match beh with
+                          | DNoReflection => Ok false
+                          | _ => d <- find_desc_xml (xe_db e) (S_ class) (S_ pname) ;;
+                                 Ok (match d with None => true | Some _ => false end)
+                          end
+                        else Ok false) ;;
+  if undescribed : bool then
+    '(ov, st1) <~ read_prop_value e st ty inst_id (B "Name") ;;
+    match ov with
+    | None => xret (st1, props)
+    | Some v => xret (st1, bupd (B "Name") v props)
+    end
+  else
   desc <~ xlift (match beh with
                  | DNoReflection => Ok None
                  | _ => find_desc_xml (xe_db e) (S_ class) (S_ pname)
@@ -227,6 +317,51 @@ Definition deserialize_property (e : xenv) (beh : dbehavior) (class : bytes) (in
       end
   | None =>
       match beh with
+      | DIgnoreUnknown =>
+          (* read and thrown away, together with whatever the read queued (8e3b6855) *)
+          '(_, st1) <~ read_prop_value e st ty inst_id pname ;; xret (drop_queued st st1, props)
+      | DReadUnknown | DNoReflection =>
+          '(ov, st1) <~ read_prop_value e st ty inst_id pname ;;
+          match ov with
+          | None => xret (st1, props)
+          | Some v => xret (st1, bupd pname v props)
+          end
+      | DErrorOnUnknown => xfail DE_UNKNOWN
+      end
+  end.
+
+(* the same iteration before 9d6f480a and 8e3b6855: `Name` goes through the lookup like any other property, and the
+   rewrites an ignored Ref / SharedString queued stay queued *)
+Definition deserialize_property_pinned (e : xenv) (beh : dbehavior) (class : bytes) (inst_id : N) (ty pname : bytes)
+  (st : dstate) (props : list (bytes * value)) : xrd (dstate * list (bytes * value)) :=
+  desc <~ xlift (match beh with
+                 | DNoReflection => Ok None
+                 | _ => find_desc_xml (xe_db e) (S_ class) (S_ pname)
+                 end) ;;
+  match desc with
+  | Some (canon, _) =>
+      let cname := bytes_of_string (pd_name canon) in
+      '(ov, st1) <~ read_prop_value e st ty inst_id cname ;;
+      match ov with
+      | None => xret (st1, props)
+      | Some v =>
+          conv <~ xlift (try_convert (xe_o e) v (dtype_vt (pd_type canon))) ;;
+          match pd_kind canon with
+          | KCanon (PMigrate to op) =>
+              let newname := bytes_of_string to in
+              match bfind newname props with
+              | Some _ => xret (st1, props)
+              | None =>
+                  match migrate (xe_font e) (xe_brick e) op conv with
+                  | Some nv => xret (st1, bupd newname nv props)
+                  | None => xfail DE_MIGRATION
+                  end
+              end
+          | _ => xret (st1, bupd cname conv props)
+          end
+      end
+  | None =>
+      match beh with
       | DIgnoreUnknown => '(_, st1) <~ read_prop_value e st ty inst_id pname ;; xret (st1, props)
       | DReadUnknown | DNoReflection =>
           '(ov, st1) <~ read_prop_value e st ty inst_id pname ;;
@@ -238,8 +373,10 @@ Definition deserialize_property (e : xenv) (beh : dbehavior) (class : bytes) (in
       end
   end.
 
+Definition dprop_t := xenv -> dbehavior -> bytes -> N -> bytes -> bytes -> dstate -> list (bytes * value) -> xrd (dstate * list (bytes * value)).
+
 (* deserialize_properties *)
-Fixpoint deserialize_properties_loop (fuel : nat) (e : xenv) (beh : dbehavior) (class : bytes) (inst_id : N)
+Fixpoint deserialize_properties_loop_with (dprop : dprop_t) (fuel : nat) (e : xenv) (beh : dbehavior) (class : bytes) (inst_id : N)
   (st : dstate) (props : list (bytes * value)) : xrd (dstate * list (bytes * value)) :=
   match fuel with
   | O => fun _ => OutOfFuel
@@ -250,20 +387,20 @@ Fixpoint deserialize_properties_loop (fuel : nat) (e : xenv) (beh : dbehavior) (
           match attr_first (B "name") a with
           | None => xfail DE_ATTR
           | Some pname =>
-              '(st1, props1) <~ deserialize_property e beh class inst_id ty pname st props ;;
-              deserialize_properties_loop f e beh class inst_id st1 props1
+              '(st1, props1) <~ dprop e beh class inst_id ty pname st props ;;
+              deserialize_properties_loop_with dprop f e beh class inst_id st1 props1
           end
       | REnd n => _ <~ x_next ;; if bytes_eqb n (B "Properties") then xret (st, props) else xfail DE_EVENT
       | _ => _ <~ x_next ;; xfail DE_EVENT
       end
   end.
-Definition deserialize_properties (e : xenv) (beh : dbehavior) (class : bytes) (inst_id : N)
+Definition deserialize_properties_with (dprop : dprop_t) (e : xenv) (beh : dbehavior) (class : bytes) (inst_id : N)
   (st : dstate) (props : list (bytes * value)) : xrd (dstate * list (bytes * value)) :=
   fun evs => (_ <~ x_expect_start (B "Properties") ;;
-              deserialize_properties_loop (S (length evs)) e beh class inst_id st props) evs.
+              deserialize_properties_loop_with dprop (S (length evs)) e beh class inst_id st props) evs.
 
 (* deserialize_instance and its loop *)
-Fixpoint deserialize_instance (fuel : nat) (e : xenv) (beh : dbehavior) (parent : N) (st : dstate) : xrd dstate :=
+Fixpoint deserialize_instance_with (dprop : dprop_t) (fuel : nat) (e : xenv) (beh : dbehavior) (parent : N) (st : dstate) : xrd dstate :=
   match fuel with
   | O => fun _ => OutOfFuel
   | S f =>
@@ -279,7 +416,7 @@ Fixpoint deserialize_instance (fuel : nat) (e : xenv) (beh : dbehavior) (parent 
                            | None => ds_refs st
                            end)
                           (ds_rewrites st) (ds_shared st) (ds_srewrites st) in
-          '(st2, props) <~ instance_loop f e beh class id st1 [] ;;
+          '(st2, props) <~ instance_loop_with dprop f e beh class id st1 [] ;;
           (* instance.name = properties.remove("Name") ...; instance.properties = properties *)
           match bfind (B "Name") props with
           | Some (VString s) =>
@@ -292,7 +429,7 @@ Fixpoint deserialize_instance (fuel : nat) (e : xenv) (beh : dbehavior) (parent 
           end
       end
   end
-with instance_loop (fuel : nat) (e : xenv) (beh : dbehavior) (class : bytes) (id : N) (st : dstate)
+with instance_loop_with (dprop : dprop_t) (fuel : nat) (e : xenv) (beh : dbehavior) (class : bytes) (id : N) (st : dstate)
   (props : list (bytes * value)) : xrd (dstate * list (bytes * value)) :=
   match fuel with
   | O => fun _ => OutOfFuel
@@ -301,11 +438,11 @@ with instance_loop (fuel : nat) (e : xenv) (beh : dbehavior) (class : bytes) (id
       match ev with
       | RStart n _ =>
           if bytes_eqb n (B "Properties") then
-            '(st1, props1) <~ deserialize_properties e beh class id st props ;;
-            instance_loop f e beh class id st1 props1
+            '(st1, props1) <~ deserialize_properties_with dprop e beh class id st props ;;
+            instance_loop_with dprop f e beh class id st1 props1
           else if bytes_eqb n (B "Item") then
-            st1 <~ deserialize_instance f e beh id st ;;
-            instance_loop f e beh class id st1 props
+            st1 <~ deserialize_instance_with dprop f e beh id st ;;
+            instance_loop_with dprop f e beh class id st1 props
           else _ <~ x_next ;; xfail DE_EVENT
       | REnd n => _ <~ x_next ;; if bytes_eqb n (B "Item") then xret (st, props) else xfail DE_EVENT
       | _ => _ <~ x_next ;; xfail DE_EVENT
@@ -351,7 +488,7 @@ Definition deserialize_shared_string_dict (st : dstate) : xrd dstate :=
               _ <~ x_expect_end (B "SharedStrings") ;; xret st1) evs.
 
 (* the loop of deserialize_root *)
-Fixpoint root_loop (fuel : nat) (e : xenv) (beh : dbehavior) (st : dstate) : xrd dstate :=
+Fixpoint root_loop_with (dprop : dprop_t) (fuel : nat) (e : xenv) (beh : dbehavior) (st : dstate) : xrd dstate :=
   match fuel with
   | O => fun _ => OutOfFuel
   | S f =>
@@ -359,10 +496,10 @@ Fixpoint root_loop (fuel : nat) (e : xenv) (beh : dbehavior) (st : dstate) : xrd
       match ev with
       | RStart n _ =>
           if bytes_eqb n (B "Item") then
-            fun evs => (st1 <~ deserialize_instance (2 * length evs + 4) e beh 0 st ;; root_loop f e beh st1) evs
-          else if bytes_eqb n (B "External") then _ <~ x_eat_unknown ;; root_loop f e beh st
-          else if bytes_eqb n (B "Meta") then _ <~ deserialize_metadata ;; root_loop f e beh st
-          else if bytes_eqb n (B "SharedStrings") then st1 <~ deserialize_shared_string_dict st ;; root_loop f e beh st1
+            fun evs => (st1 <~ deserialize_instance_with dprop (2 * length evs + 4) e beh 0 st ;; root_loop_with dprop f e beh st1) evs
+          else if bytes_eqb n (B "External") then _ <~ x_eat_unknown ;; root_loop_with dprop f e beh st
+          else if bytes_eqb n (B "Meta") then _ <~ deserialize_metadata ;; root_loop_with dprop f e beh st
+          else if bytes_eqb n (B "SharedStrings") then st1 <~ deserialize_shared_string_dict st ;; root_loop_with dprop f e beh st1
           else _ <~ x_next ;; xfail DE_EVENT
       | REnd n => _ <~ x_next ;; if bytes_eqb n (B "roblox") then xret st else xfail DE_EVENT
       | REndDoc => xret st
@@ -371,7 +508,7 @@ Fixpoint root_loop (fuel : nat) (e : xenv) (beh : dbehavior) (st : dstate) : xrd
   end.
 
 (* deserialize_root *)
-Definition deserialize_root (e : xenv) (beh : dbehavior) : xrd dstate :=
+Definition deserialize_root_with (dprop : dprop_t) (e : xenv) (beh : dbehavior) : xrd dstate :=
   fun evs =>
     (first <~ x_next ;;
      match first with
@@ -379,7 +516,7 @@ Definition deserialize_root (e : xenv) (beh : dbehavior) : xrd dstate :=
          a <~ x_expect_start (B "roblox") ;;
          match attr_last (B "version") a None with
          | None => xfail DE_ATTR
-         | Some v => if bytes_eqb v (B "4") then root_loop (S (length evs)) e beh ds0 else xfail DE_VERSION
+         | Some v => if bytes_eqb v (B "4") then root_loop_with dprop (S (length evs)) e beh ds0 else xfail DE_VERSION
          end
      | _ => fun _ => Panic                                           (* unreachable!() *)
      end) evs.
@@ -405,8 +542,8 @@ Fixpoint apply_shared_rewrites (known : list (bytes * bytes)) (rw : list (N * by
   end.
 
 (* decode_internal *)
-Definition xml_decode (e : xenv) (beh : dbehavior) (evs : list revent) : res cdom :=
-  match deserialize_root e beh evs with
+Definition xml_decode_with (dprop : dprop_t) (e : xenv) (beh : dbehavior) (evs : list revent) : res cdom :=
+  match deserialize_root_with dprop e beh evs with
   | Ok (st, _) =>
       Ok (apply_shared_rewrites (ds_shared st) (ds_srewrites st)
             (apply_ref_rewrites (ds_refs st) (ds_rewrites st) (ds_nodes st)))
@@ -414,3 +551,9 @@ Definition xml_decode (e : xenv) (beh : dbehavior) (evs : list revent) : res cdo
   | Err c => Err c
   | OutOfFuel => OutOfFuel
   end.
+
+Definition deserialize_properties := deserialize_properties_with deserialize_property.
+Definition deserialize_instance := deserialize_instance_with deserialize_property.
+Definition deserialize_root := deserialize_root_with deserialize_property.
+Definition xml_decode := xml_decode_with deserialize_property.
+Definition xml_decode_pinned := xml_decode_with deserialize_property_pinned.     (* before 9d6f480a and 8e3b6855 *)
